@@ -57,7 +57,17 @@ def model_signature(m):
     return (tuple(m.get_names()), tuple(sorted(m.create_name_to_description().items())), tuple(sorted(dict(m.get_log_status()).items())), dyn, std)
 
 
+class _OneFingerprint:
+    """All mismatches of the nested-pseudofunction model are one finding."""
+    def __init__(self, chk):
+        self.chk = chk
+    def mismatch(self, fp, what, payload):
+        self.chk.mismatch("lang:nested-pseudofunctions", what, payload)
+
+
 def check(chk, sc, text, meaning, rnd, signatures):
+    if sc["mid"] == "D":
+        chk = _OneFingerprint(chk)
     payload = {"kind": "lang", "model": sc["mid"], "choices": _plain(sc["ch"]), "text": list(text)}
     src = "\n".join(text) + "\n"
     ch = sc["ch"]
